@@ -51,7 +51,8 @@ func randomModel(rng *rand.Rand, maxTypes, maxRels int) *AbsModel {
 	parentsOf := map[string][]string{}
 	for _, o := range objs {
 		parentsOf[o] = []string{pick(objs)}
-		if rng.Intn(2) == 0 {
+		for rng.Intn(2) == 0 && len(parentsOf[o]) < 4 {
+			// repeated parent types (with different conditions) are deliberate: the builder de-duplicates TTU edges
 			parentsOf[o] = append(parentsOf[o], pick(objs))
 		}
 	}
@@ -137,10 +138,10 @@ func randomModel(rng *rand.Rand, maxTypes, maxRels int) *AbsModel {
 			rw := tree(2, false)
 			restr := []AbsRestr{}
 			if usedThis {
-				k := 1 + rng.Intn(3)
+				k := 1 + rng.Intn(4)
 				for j := 0; j < k; j++ {
 					switch x := rng.Intn(10); {
-					case x < 5:
+					case x < 4:
 						restr = append(restr, AbsRestr{T: users[rng.Intn(1+rng.Intn(len(users)))], Kind: "type", Cond: pick(conds)})
 					case x < 7:
 						restr = append(restr, AbsRestr{T: pick(users), Kind: "wild", Cond: pick(conds)})
